@@ -96,8 +96,9 @@ func (es *EndpointShards) CopyEndpoints(portMap map[string]int, ports sets.Set[i
 	es.RLock()
 	defer es.RUnlock()
 	res := map[int][]*IstioEndpoint{}
-	for _, v := range es.Shards {
-		for _, ep := range v {
+	// in the order of the sorted shard keys, like the EDS path: the snapshot must not depend on map iteration order
+	for _, k := range es.Keys() {
+		for _, ep := range es.Shards[k] {
 			// use the port name as the key, unless LegacyClusterPortKey is set and takes precedence
 			// In EDS we match on port *name*. But for historical reasons, we match on port number for CDS.
 			var portNum int
